@@ -25,6 +25,8 @@ def run(m, tier):
                          "of the source, so spans and literals are not cut at form feed / U+2028 etc. (shared with C07.R5)"))
     from rules import reader_interp
     results.append(reader_interp.stream_rule(m, "C12.R10", tier))
+    from rules import order_rules as _or_gb
+    results.append(_or_gb.giveback_complete_rule(m, "C12.R11"))
     expl = ("Decides structural clauses of C12: the item queue discipline (who pushes/pops which end, ';' parts reversed before being "
             "pushed to the front, give-back forwarded to the active include reader, no access to another reader's queue); every "
             "look-ahead is undone (typestate of items and nodes on all paths of every reader-level matcher); the physical line counter "
